@@ -45,6 +45,8 @@ type depInfo struct {
 	pos       int
 	mined     bool
 	credited  bool
+	offeredAt int64  // height of the block whose large batch offered it
+	plain     bool   // an ordinary deposit to the key registered when it was made (candidates of large batches)
 	keyID     string // overrides the interned id of key (a malformed key whose first bytes equal a registered key's)
 }
 
@@ -613,22 +615,30 @@ func (g *bridgeGen) plan(mode string) (*BlockPlan, error) {
 	}
 	// fresh deposit transactions waiting to be mined
 	if rare(2) {
-		for k := 1 + r.Intn(2); k > 0; k-- {
+		nd := 1 + r.Intn(2)
+		if mode == "burst" && rare(2) {
+			nd = 8 + r.Intn(7) // more deposits than one execution block is told about (8)
+		}
+		for k := nd; k > 0; k-- {
 			if d := g.newDepositTx("none"); d != nil {
 				dd := d
+				dd.plain = true
 				g.addPending(d.raw, func(b *btcBlock, pos int) { dd.blk, dd.pos, dd.mined = b.h, pos, true })
 				g.deps = append(g.deps, d)
 			}
 		}
 	}
 
-	if rare(4) && len(g.keys) > 0 { // a deposit to the script of some other key the harness knows: an older relayer key, or one whose
+	if (rare(4) || (mode == "addr" && rare(2))) && len(g.keys) > 0 { // a deposit to the script of some other key the harness knows: an older relayer key, or one whose
 		// registration failed / has not happened (never a relayer key on the committed state)
 		k := g.keys[r.Intn(len(g.keys))]
 		if rare(2) { // a key nobody has proposed (yet)
 			g.nkey++
 			k = sim.NewBtcKey(int64(g.nkey)*977+r.Int63n(1<<40), g.nkey, false)
 			g.keys = append(g.keys, k)
+		}
+		if rare(3) { // the chain's first key (mostly still registered): what counts then is the padded variant of it
+			k = g.keys[0]
 		}
 		if d := g.ownScriptV1Deposit(k, g.evms[r.Intn(len(g.evms))]); d != nil {
 			dd := d
@@ -644,11 +654,15 @@ func (g *bridgeGen) plan(mode string) (*BlockPlan, error) {
 	var cancels, confs, minDeps []int64
 	if rare(3) || (mode == "addr" && rare(2)) {
 		nw := 1 + r.Intn(3)
-		if rare(6) {
+		if rare(6) || (mode == "burst" && rare(2)) {
 			nw = 8 + r.Intn(6) // many withdrawals requested in one execution block
 		}
+		allBad := mode == "burst" && nw >= 8 && rare(3) // more refund notices than one execution block carries
 		for k := nw; k > 0; k-- {
 			addr, net, kind := g.newAddress()
+			for try := 0; allBad && net == g.netName && try < 20; try++ {
+				addr, net, kind = g.newAddress()
+			}
 			if n := len(br.Withdraws); n > 0 && rare(3) { // the same address as the request before it (valid or not) in one batch
 				addr, net, kind = br.Withdraws[n-1].Address, wds[n-1]["net"].(string), wds[n-1]["kind"].(string)
 			}
@@ -748,10 +762,26 @@ func (g *bridgeGen) plan(mode string) (*BlockPlan, error) {
 	if nearCb && ntx < 2 {
 		ntx = 2
 	}
+	largeMined := false // the transaction of a large processing batch is mined below the voted tip: finalise it now
+	if mode == "burst" {
+		for _, p := range st.Proc {
+			for _, w := range g.wtxs {
+				if len(p.IDs) >= 9 && w.pid == p.Pid && w.mined && int64(w.blk) <= st.Tip && indexOfStr(p.Txids, project.H6(w.txid)) >= 0 {
+					largeMined = true
+				}
+			}
+		}
+		if largeMined && ntx < 1 {
+			ntx = 1
+		}
+	}
 	for k := 0; k < ntx; k++ {
 		x := r.Intn(22)
 		if nearCb && k == 0 {
 			x = 10 // present the coinbase deposit at every height around its maturity
+		}
+		if largeMined && k == 0 {
+			x = 16
 		}
 		switch {
 		case x < 6: // vote block hashes
@@ -843,17 +873,49 @@ func (g *bridgeGen) plan(mode string) (*BlockPlan, error) {
 			m := &bitcointypes.MsgNewDeposits{Proposer: s.member(vc.Proposer).Bech}
 			var items []Ev
 			seenH := map[uint64]bool{}
-			for j := 1 + r.Intn(3); j > 0; j-- {
+			nItems, perm := 1+r.Intn(3), []int(nil)
+			if mode == "burst" && rare(2) {
+				var good []*depInfo
+				done := map[string]bool{}
+				for _, x := range st.Deposited {
+					if len(x) == 2 {
+						done[fmt.Sprint(x[0], "/", x[1])] = true
+					}
+				}
+				for _, d := range g.deps {
+					if done[fmt.Sprint(project.H6(d.txid), "/", d.outIdx)] || d.gen["magicOk"] != true || fmt.Sprint(d.gen["version"]) != fmt.Sprint(d.version) {
+						continue
+					}
+					// deposits that will be credited: confirmed, not credited (nor offered in an earlier large batch of this block), of a
+					// sufficient and ordinary value, of a version the key type supports
+					if d.plain && d.mined && int64(d.blk)+int64(st.Params.Conf) <= st.Tip+1 && !d.credited && d != g.cbDep && d.offeredAt != s.C.Height+1 &&
+						d.value >= st.Params.MinDeposit && d.value < 1_000_000_000 && (d.version == 0 || keyType(d.key) == "secp256k1") {
+						good = append(good, d)
+					}
+				}
+				if len(good) >= 9 { // one message credits more deposits than one execution block carries
+					cand = good
+					nItems, perm = 9+r.Intn(6), r.Perm(len(cand))
+					if nItems > len(cand) {
+						nItems = len(cand)
+					}
+				}
+			}
+			for j := nItems; j > 0; j-- {
 				d := cand[r.Intn(len(cand))]
+				if perm != nil {
+					d = cand[perm[j-1]]
+					d.offeredAt = s.C.Height + 1
+				}
 				flaw := "none"
 				if d == g.cbDep && rare(3) { // a coinbase transaction presented under an aliased (non-zero) position
 					flaw = "posAlias"
 				} else if mode == "addr" && rare(3) {
 					flaw = []string{"otherEvm", "otherKey", "version", "otherOut"}[r.Intn(4)]
-				} else if rare(4) {
+				} else if rare(4) && perm == nil {
 					flaw = []string{"otherEvm", "otherKey", "version", "version2", "outIdx", "otherOut", "pos", "posAlias", "proof", "proofTrunc", "proofRagged", "header", "noHeader", "evmLen", "txTrunc"}[r.Intn(15)]
 				}
-				if flaw == "none" && j > 1 && rare(3) {
+				if flaw == "none" && j > 1 && rare(3) && perm == nil {
 					for _, x := range cand { // prefer an output that really has a second position
 						if bx := g.chain[x.blk]; bx != nil && x.pos == len(bx.txids)-1 && len(bx.txids)%2 == 1 && len(bx.txids) > 1 {
 							d = x
@@ -861,7 +923,7 @@ func (g *bridgeGen) plan(mode string) (*BlockPlan, error) {
 						}
 					}
 				}
-				if flaw == "none" && j > 1 && rare(4) { // the same output twice in one batch (second time under an alias position)
+				if flaw == "none" && j > 1 && rare(4) && perm == nil { // the same output twice in one batch (second time under an alias position)
 					dep0, hdr0, f0 := g.depositItem(d, "none")
 					m.Deposits = append(m.Deposits, dep0)
 					if hdr0 != nil && !seenH[hdr0.Height] {
@@ -1083,7 +1145,7 @@ func (g *bridgeGen) processTx(vc *voteCtx, st *project.BridgeState) (*brTx, erro
 		ids, pid, prevFee = p.IDs, p.Pid, p.Fee
 	} else {
 		maxIDs := 3
-		if rare(5) {
+		if rare(5) || (g.mode == "burst" && rare(2)) {
 			maxIDs = 9 + r.Intn(6) // a large batch: more paid notices than one execution block delivers (8)
 		}
 		for _, w := range st.Wd {
@@ -1226,11 +1288,21 @@ func (g *bridgeGen) finalizeMsg(vc *voteCtx, st *project.BridgeState) (sdk.Msg, 
 		return nil, nil
 	}
 	w := cand[r.Intn(len(cand))]
+	large := false
+	if g.mode == "burst" { // the mined transaction of a large batch still in processing goes first, and unspoilt
+		for _, p := range st.Proc {
+			for _, c := range cand {
+				if len(p.IDs) >= 9 && c.pid == p.Pid && indexOfStr(p.Txids, project.H6(c.txid)) >= 0 {
+					w, large = c, true
+				}
+			}
+		}
+	}
 	blk := g.chain[w.blk]
 	m := &bitcointypes.MsgFinalizeWithdrawal{Proposer: s.member(vc.Proposer).Bech, Pid: uint64(w.pid), Txid: w.txid, BlockNumber: w.blk,
 		TxIndex: uint32(w.pos), IntermediateProof: flat(blk.tree.Path(w.pos)), BlockHeader: blk.header}
 	f := Ev{"wf": true, "pid": w.pid, "txid": project.H6(w.txid), "blk": int64(w.blk), "hdr": project.H6(blk.hash), "spvOk": true}
-	if rare(5) {
+	if rare(5) && !large {
 		switch r.Intn(6) {
 		case 5: // ragged path
 			stray := make([]byte, 1+r.Intn(31))
@@ -1258,4 +1330,13 @@ func (g *bridgeGen) finalizeMsg(vc *voteCtx, st *project.BridgeState) (sdk.Msg, 
 		}
 	}
 	return m, f
+}
+
+func indexOfStr(xs []string, x string) int {
+	for i, v := range xs {
+		if v == x {
+			return i
+		}
+	}
+	return -1
 }
